@@ -46,4 +46,6 @@ def step (w : List String) : String :=
     | none => "bad-op"
   | _ => "bad-op"
 
+def run : IO Unit := runStateless step
+
 end XlModel.Drv.C20
